@@ -388,7 +388,6 @@ func execute(x *explore.Exec, sc *Scn, b *built, rep *runner.Report) {
 	x.Observe(len(ev), o, checked, err == nil)
 }
 
-
 // ---- scenario space ------------------------------------------------------------------
 
 func scenarios(tier string, yield func(any) bool) {
